@@ -1,4 +1,154 @@
 package main
 
-// runSelfTest is the thorough-tier mutation self-test of the checker (see selftest_*.go).
-func runSelfTest(id string, c *Ctx) map[string]interface{} { return nil }
+// Thorough-tier mutation self-test of the checker: a fixed catalogue of source rewrites per
+// property, each applied to a scratch copy of the repository under a fresh temporary directory
+// (one variant at a time, removed immediately), analysed by this same binary in a separate
+// process. A variant must still type-check and must be reported with the expected finding key.
+// A rewrite whose anchor text no longer occurs in the tree is skipped and listed, never failed.
+
+import (
+	"fmt"
+	"io"
+	"os"
+	"os/exec"
+	"path/filepath"
+	"strings"
+)
+
+type mutant struct {
+	name   string
+	file   string // relative to the repository root
+	old    string
+	new    string
+	expect string // substring of a finding key that must be reported
+}
+
+var mutants = map[string][]mutant{}
+
+func copyTree(src, dst string) error {
+	return filepath.Walk(src, func(p string, info os.FileInfo, err error) error {
+		if err != nil {
+			return err
+		}
+		rel, _ := filepath.Rel(src, p)
+		if rel == ".git" || strings.HasPrefix(rel, ".git"+string(filepath.Separator)) {
+			if info.IsDir() {
+				return filepath.SkipDir
+			}
+			return nil
+		}
+		if info.IsDir() {
+			return os.MkdirAll(filepath.Join(dst, rel), 0o755)
+		}
+		if !info.Mode().IsRegular() {
+			return nil
+		}
+		// the large word list is only needed by tests
+		if strings.HasSuffix(rel, ".TXT") || strings.Contains(rel, "testdata") {
+			return nil
+		}
+		in, err := os.Open(p)
+		if err != nil {
+			return err
+		}
+		defer in.Close()
+		out, err := os.Create(filepath.Join(dst, rel))
+		if err != nil {
+			return err
+		}
+		defer out.Close()
+		_, err = io.Copy(out, in)
+		return err
+	})
+}
+
+func runSelfTest(id string, c *Ctx) map[string]interface{} {
+	ms := mutants[id]
+	if len(ms) == 0 {
+		return nil
+	}
+	exe, err := os.Executable()
+	if err != nil {
+		return map[string]interface{}{"selftest_broken": []string{"self-test: cannot locate own binary: " + err.Error()}}
+	}
+	var samples []interface{}
+	var broken []string
+	applied, caught, skipped := 0, 0, 0
+	for _, m := range ms {
+		src, err := os.ReadFile(filepath.Join(c.Dir, m.file))
+		if err != nil || strings.Count(string(src), m.old) == 0 {
+			skipped++
+			samples = append(samples, map[string]string{"mutant": m.name, "status": "skipped: anchor text not present in the tree under analysis"})
+			continue
+		}
+		tmp, err := os.MkdirTemp("", "mambacheck-selftest-")
+		if err != nil {
+			broken = append(broken, "self-test: "+err.Error())
+			break
+		}
+		func() {
+			defer os.RemoveAll(tmp)
+			repo := filepath.Join(tmp, "repo")
+			out := filepath.Join(tmp, "out")
+			os.MkdirAll(out, 0o755)
+			if err := copyTree(c.Dir, repo); err != nil {
+				broken = append(broken, "self-test: copy failed: "+err.Error())
+				return
+			}
+			mutated := strings.Replace(string(src), m.old, m.new, 1)
+			if err := os.WriteFile(filepath.Join(repo, m.file), []byte(mutated), 0o644); err != nil {
+				broken = append(broken, "self-test: "+err.Error())
+				return
+			}
+			// known findings of the real tree stay known in the variant
+			if kf, err := os.ReadFile(filepath.Join(verifDir(), "known_findings.txt")); err == nil {
+				os.WriteFile(filepath.Join(out, "known_findings.txt"), kf, 0o644)
+			}
+			cmd := exec.Command(exe, id, "quick")
+			cmd.Env = append(os.Environ(), "MAMBA_REPO="+repo, "VERIF_DIR="+out, "MAMBACHECK_CTL="+ctlDir())
+			b, _ := cmd.CombinedOutput()
+			applied++
+			text := string(b)
+			status := ""
+			switch {
+			case strings.Contains(text, "ANALYSIS-FAILURE"):
+				status = "variant does not type-check or lost an anchor (catalogue entry is stale): " + firstLine(text, "ANALYSIS-FAILURE")
+				broken = append(broken, fmt.Sprintf("self-test %s/%s: %s", id, m.name, status))
+			case strings.Contains(text, "["+m.expect) || strings.Contains(text, m.expect):
+				if strings.Contains(text, "VIOLATION property="+id) {
+					caught++
+					status = "caught: " + firstLine(text, m.expect)
+				} else {
+					status = "expected key printed but no VIOLATION line"
+					broken = append(broken, fmt.Sprintf("self-test %s/%s: %s", id, m.name, status))
+				}
+			default:
+				status = "MISSED: expected a finding containing " + m.expect
+				broken = append(broken, fmt.Sprintf("self-test %s/%s: rule did not report the seeded rewrite (expected %s)", id, m.name, m.expect))
+			}
+			samples = append(samples, map[string]string{"mutant": m.name, "file": m.file, "rewrite": m.old + "  =>  " + m.new, "status": status})
+		}()
+	}
+	res := map[string]interface{}{
+		"programs":              applied,
+		"disagreements_checked": caught,
+		"selftest_skipped":      skipped,
+		"selftest_samples":      samples,
+	}
+	if len(broken) > 0 {
+		res["selftest_broken"] = broken
+	}
+	return res
+}
+
+func firstLine(text, needle string) string {
+	for _, l := range strings.Split(text, "\n") {
+		if strings.Contains(l, needle) {
+			if len(l) > 300 {
+				l = l[:300]
+			}
+			return l
+		}
+	}
+	return ""
+}
